@@ -58,7 +58,7 @@ func newChecker(strict bool, cache time.Duration) *repoocsp.OCSPRevocationChecke
 
 func main() {
 	run := report.New("C05", "exploration")
-	run.Rule("cells = signer{issuer, delegated+OCSPSigning, delegated without EKU, client's own certificate embedded / not embedded, stranger with/without embedded certificate, sibling CA with/without embedded, delegate of sibling, delegate of root} x serial{this, other} x status{good, revoked, unknown} + error response statuses (bare and wrapped around valid bytes) + every single-bit flip inside tbsResponseData, the signatureAlgorithm OID and the signature of authentic ECDSA responses + truncations; client certificate with/without subjectKeyIdentifier presented with one or two verified chains (all four combinations for every cell of the signer matrix, in rotation elsewhere); each response is served to a strict checker (authentic => verdict by status; else error), to a lenient checker (else accepted, whatever the forged body says) and asked again with the responder down and a 1 h cache (cached iff authentic); non-trivial = the responder was contacted and the response reached the parser; distinct = cell / flip position")
+	run.Rule("cells = signer{issuer, delegated+OCSPSigning, delegated without EKU, client's own certificate embedded / not embedded, stranger with/without embedded certificate, sibling CA with/without embedded, delegate of sibling, delegate of root} x serial{this, other} x status{good, revoked, unknown} + error response statuses (bare and wrapped around valid bytes) + every single-bit flip inside tbsResponseData, the signatureAlgorithm OID and the signature of authentic ECDSA responses + truncations; client certificate with/without subjectKeyIdentifier presented with one or two verified chains (all four combinations for every cell of the signer matrix, in rotation elsewhere) and with AKI forms {keyIdentifier, long, issuer+serial, URI+serial with the client carrying the CA's serial}; each response is served to a strict checker (authentic => verdict by status; else error), to a lenient checker (else accepted, whatever the forged body says) and asked again with the responder down and a 1 h cache (cached iff authentic); non-trivial = the responder was contacted and the response reached the parser; distinct = cell / flip position")
 	run.Assume("reference authenticity = built by the harness: which key signed, which certificate is embedded, which serial and status were put in", "bit flips are confined to regions where every bit is signed or is the signature/algorithm OID itself (ECDSA responses carry no algorithm parameters)")
 	scratch, _ := report.Scratch("C05")
 	sut.QuietStderr(filepath.Join(scratch, "stderr.log"))
@@ -144,6 +144,10 @@ func main() {
 	// with two (the issuing CA is a trust anchor itself and also chains to the root), in rotation
 	shapeN := 0
 	forceShape := -1 // the signer matrix runs every cell in all four shapes
+	// authorityKeyIdentifier form of the client certificate ("" = keyIdentifier only); "uri-serial+collide":
+	// a URI as authorityCertIssuer + the issuing CA's serial, and the client certificate carries that
+	// same serial number itself
+	forceAKI := ""
 	protocol := func(build func(leaf *pki.CA, serial *big.Int) []byte) verdict {
 		var v verdict
 		shapeN++
@@ -153,10 +157,17 @@ func main() {
 		}
 		noSKI := sh%2 == 1
 		twoChains := (sh/2)%2 == 1
-		v.shape = fmt.Sprintf("leaf-ski=%v chains=%d", !noSKI, map[bool]int{false: 1, true: 2}[twoChains])
+		v.shape = fmt.Sprintf("leaf-ski=%v chains=%d aki=%s", !noSKI, map[bool]int{false: 1, true: 2}[twoChains], map[string]string{"": "keyid"}[forceAKI]+forceAKI)
 		for pass, chk := range []*repoocsp.OCSPRevocationChecker{l.strictOn, l.strictOf} {
 			serial := pki.NextSerial()
-			leaf := w.Int.Issue(pki.CertOpts{CN: "c05 leaf", Serial: serial, OCSP: []string{l.url}, NoSKI: noSKI})
+			akiForm := forceAKI
+			if forceAKI == "uri-serial+collide" {
+				akiForm = "uri-serial"
+				if pass == 0 {
+					serial = w.Int.Cert.SerialNumber // one certificate of the CA may carry the CA's own serial
+				}
+			}
+			leaf := w.Int.Issue(pki.CertOpts{CN: "c05 leaf", Serial: serial, OCSP: []string{l.url}, NoSKI: noSKI, AKIForm: akiForm})
 			chain := []*x509.Certificate{leaf.Cert, w.Int.Cert, w.Root.Cert}
 			chains := [][]*x509.Certificate{chain}
 			if twoChains {
@@ -185,6 +196,12 @@ func main() {
 		desc += " " + v.shape
 		rp := &report.Replay{Case: map[string]any{"case": desc, "expected_authentic": authentic, "observed": fmt.Sprintf("%+v", v)}}
 		ok := true
+		if authentic && strings.Contains(v.shape, "aki=uri-serial") {
+			// the property is one-directional; whether the issuer of a certificate with such an AKI is
+			// found at all is not its subject
+			run.Count("authentic_cells_with_exotic_aki_not_judged", 1)
+			return
+		}
 		if authentic {
 			if v.strictErr || v.strictRev != revoked {
 				ok = false
@@ -223,6 +240,10 @@ func main() {
 			for sn, st := range statuses {
 				sg, which, st := sg, which, st
 				for forceShape = 0; forceShape < 4; forceShape++ {
+					forceAKI = []string{"", "long", "issuer-serial", "uri-serial+collide"}[(forceShape+len(sn)+len(which)+len(sg.Name))%4]
+					if strings.HasPrefix(sg.Name, "client-own") && which == "this" {
+						forceAKI = "uri-serial+collide"
+					}
 					v := protocol(func(leaf *pki.CA, serial *big.Int) []byte {
 						s := serial
 						if which == "other" {
@@ -238,6 +259,7 @@ func main() {
 					}
 				}
 				forceShape = -1
+				forceAKI = ""
 			}
 		}
 	}
